@@ -226,6 +226,28 @@ func (s *State) assume(t *Term) {
 			}
 		}
 	}
+	// fresh-variable == atom (a byte of a buffer written by a callee equals a byte of a digest / stream):
+	// substitute the variable
+	if t.Op == "=" && len(t.Args) == 2 && t.Args[0].Sort == SInt && t.Args[1].IsConst() && t.Args[1].Val.Sign() == 0 && t.Args[0].Op == "poly" && len(t.Args[0].P.t) == 2 {
+		var fv, other *Term
+		var cf, co *big.Int
+		okShape := true
+		for _, e := range t.Args[0].P.t {
+			if len(e.m.f) != 1 || e.m.f[0].exp.Cmp(big1) != 0 || e.c.CmpAbs(big1) != 0 {
+				okShape = false
+				break
+			}
+			a := e.m.f[0].atom
+			if fv == nil && a.Op == "var" && strings.Contains(a.Name, "!") {
+				fv, cf = a, e.c
+			} else {
+				other, co = a, e.c
+			}
+		}
+		if okShape && fv != nil && other != nil && other.Op == "select" && new(big.Int).Add(cf, co).Sign() == 0 && !occurs(fv, other) {
+			s.addSubst(fv, other)
+		}
+	}
 	// x == c for an integer variable x: substitute
 	if t.Op == "=" && len(t.Args) == 2 && t.Args[0].Sort == SInt && t.Args[1].IsConst() && t.Args[1].Val.Sign() == 0 {
 		p := polyOf(t.Args[0])
@@ -905,6 +927,12 @@ func (e *Engine) addObligation(st *State, fr *Frame, kind, label string, goal *T
 			o.Result = &SolveResult{Status: "unsat", Solver: "syntactic", Backend: "syntactic"}
 		}
 	}
+	if o.Result == nil && fr != nil && fr.contract != nil && fr.contract.Options["field"] && goal.Op == "=" && len(goal.Args) == 2 && modulusOf(goal.Args[0].Sort) != nil {
+		// rational identities over Z/M: clear denominators, reduce by square relations, expand definitions
+		if e.fieldProve(st, goal) {
+			o.Result = &SolveResult{Status: "unsat", Solver: "field-nf", Backend: "field-nf"}
+		}
+	}
 	if o.Result == nil {
 		o.Hyps = append([]*Term{}, st.hyps...)
 	}
@@ -915,7 +943,11 @@ func (e *Engine) addObligation(st *State, fr *Frame, kind, label string, goal *T
 				fmt.Fprintf(os.Stderr, "   hyp %d: %s\n", i, trunc(h.Key(), 300))
 			}
 			fmt.Fprintf(os.Stderr, "   trace: %v\n", st.trace)
-			if d := os.Getenv("VCGO_DEBUG_DIFF"); d != "" {
+			if os.Getenv("VCGO_DEBUG_DIFF") == "sides" && goal.Op == "=" && len(goal.Args) == 2 {
+				if a, b := firstDiff(goal.Args[0], goal.Args[1], 0); a != nil {
+					fmt.Fprintf(os.Stderr, "   first difference between the two sides:\n     lhs: %s\n     rhs: %s\n", trunc(pretty(a, 5), 1500), trunc(pretty(b, 5), 1500))
+				}
+			} else if d := os.Getenv("VCGO_DEBUG_DIFF"); d != "" {
 				if k, err := strconv.Atoi(d); err == nil && k < len(st.hyps) {
 					a, b := firstDiff(goal, st.hyps[k], 0)
 					if a != nil {
